@@ -109,6 +109,11 @@ def opaque_edit(text, rnd):
         return None
     a, b, g = rnd.choice(spans)
     old = text[a:b]
+    # the digraph characters are only left out where the known finding K4 applies: on lines
+    # whose width is near the 80-column limit (len(value) is what the length check sees)
+    ls, le = text.rfind("\n", 0, a) + 1, text.find("\n", b)
+    near_limit = any(len(ln.expandtabs(4)) > 70 for ln in text[ls:le if le >= 0 else len(text)].split("\n"))
+    alphabet = "+-&|;{}[]()=!,.#abz09 " + ("" if near_limit else "<:%><:%>")
     new = []
     for ch in old:
         if ch in "\n\t\\":
@@ -116,7 +121,7 @@ def opaque_edit(text, rnd):
         elif ch in "*/\"'" or ch in "?<>%:":
             new.append(ch if ch in "*/\"'" else "x")
         else:
-            new.append(rnd.choice("+-&|;{}[]()=!,.#abz09 "))
+            new.append(rnd.choice(alphabet))
     new = "".join(new)
     new = new.replace("*/", "*+").replace("/*", "+*")
     if g == 2:
@@ -143,6 +148,13 @@ def run(tier, seed, replay):
     value_frame(chk, "C17")
     lexer_char_frame(chk)
     literal_value_lemmas(chk)
+    # lexer lemma: the comment / literal parsers keep the position invariant and consume by
+    # logical characters (their C09 contracts, re-verified here on the current tree)
+    from .common import run_parallel
+    from ..specs import lexer as SL
+    jobs = [j for j in SL.lexer_jobs() if j[0] in ("parse_line_comment", "parse_multi_line_comment",
+                                                   "parse_string_literal", "parse_char_literal")]
+    run_parallel(chk, jobs, SL.INSTALLS, procs=4)
 
     # known finding K4: digraph / trigraph characters are respelled inside comments, so
     # len(value) is shorter than the displayed width
@@ -162,7 +174,7 @@ def run(tier, seed, replay):
         files.append((f"gen{i}.c", t))
     tasks, pairs = [], []
     for name, text in files:
-        for _ in range(3 if thorough else 1):
+        for _ in range(6 if thorough else 3):
             t2 = opaque_edit(text, rnd)
             if t2 is None or t2 == text:
                 continue
